@@ -37,6 +37,8 @@ def templates(tier="quick"):
         ops.append(f)
     dup = next(i for i, o in enumerate(ops) if o["op"] == "dupdeps")
     T.append(scenario("c09/deps_tools/built", "c09", [v0, v1], ops=ops, init=[build], depth=d, tags=["depslog", "tools"]))
+    T.append(scenario("c09/deps_tools/builddir", "c09", [Variant("v0", v0.stmts, header="builddir = bd"), Variant("v1", v1.stmts, header="builddir = bd")],
+                      ops=ops, init=[build], depth=d, tags=["depslog", "tools", "builddir"], builddir="bd"))
     T.append(scenario("c09/deps_tools/long_history", "c09", [v0, v1], ops=ops, init=[build, dup], depth=d,
                       tags=["depslog", "tools", "recompaction"]))
     # an implicit output supplied through dyndep information, on a statement with deps
